@@ -14,6 +14,15 @@ import re
 import vlib
 
 PROPS = "Properties_C04"
+# leaf functions / constants of ring.c are re-translated from the C source on every run (tools/translate_leaf.py ->
+# coq/gen/Leaf.v, Constants.v) and re-proved equal to the model's (coq/Properties_leaf_ring.v)
+EXTRA_PROPS = ["Properties_leaf_ring"]
+
+
+def REGEN(ctx):
+    vlib.regen_leaf(ctx, ["Ring"])
+
+
 RULE = ("rings are created through a guard-page allocator with requested sizes that are powers of two and not (3, 5, 7, 40, 100, 1000, ...; every buffer access is checked against the allocated extent); trace cases: every head pair (r,w) of rings of size 1,2,4,8,16 x every API call with size arguments at and "
         "around the space boundary, transactions (begin, 1-3 amends, commit) incl. failing amends, random call "
         "sequences, random states of sizes 32..4096; schedule cases: writer/reader programs of <=3 calls on a ring of "
